@@ -32,13 +32,14 @@ LEVEL_TEXT = (
     'rewiring under the graph-output pseudo consumer, dtype/quantization '
     'annotation and buffer overwrite; nothing is renamed, reshaped, removed or '
     'reordered. Graph isomorphism on concrete models is not decided.'
+    ' Tables / simulations over listed lattices: consumer translation with the -1 pseudo consumer, signature outputs per signature, graph rewrite, whole pipeline (graph inputs / outputs float unless selected).'
 )
 LEVEL_NOTE = (
     'Trusted: sa engines; EMULATED_SUBCHANNEL (op replacement) is excluded as '
     'in the property. Not decided: isomorphism of concrete graphs, I/O dtypes '
     'under a given recipe.'
 )
-TECHNIQUE = 'write-set (frame) classification over the call graph + guarded-store rules + effect analysis (static)'
+TECHNIQUE = 'write-set (frame) classification over the call graph + guarded-store rules + effect analysis + abstract interpretation of the repository functions over a finite lattice (decision tables / label-model simulations compared with an independent expectation) (static)'
 
 FORBIDDEN_ATTR_STORES = {'name', 'shape', 'opcodeIndex', 'builtinOptions', 'builtinOptionsType',
                          'builtinOptions2', 'customOptions', 'customOptionsFormat', 'version',
